@@ -630,3 +630,35 @@ package database
 //@   requires mdb.CachedDatabase != nil && cacheWF(mdb.CachedDatabase) && (mdb.CachedDatabase.Database.embeddingIndex != nil ==> embedding.wfEmb(mdb.CachedDatabase.Database.embeddingIndex)) && mdb.monitor != nil && metrics.collectorWF(mdb.monitor.collector)
 //@   modifies anything
 //@   ensures[C05.monitored-update] calls("(*database.CachedDatabase).UpdateDatabase") == 1 && result == nil
+
+// ---------------------------------------------------------------------------
+// C11: concurrent searches on one loaded database. With the index already built for the current
+// command list a search writes nothing but memory it allocates itself (second contract of
+// SearchUniversal, used by the callers below, which are verified in concurrent mode: every write
+// to memory that existed before the call is under an exclusive lock or atomic).
+//@ also func (*Database).SearchUniversal
+//@   requires dbInv(db) && db.uIndex != nil && db.uIndex.N == len(db.Commands)
+//@   defines forall c *Command :: eligible(c) <==> (platOK(c, options) && pipeOK(c, options))
+//@   modifies nothing
+//@   ensures[C11.search-keeps-index] db.uIndex == old(db.uIndex) && db.uIndex.N == len(db.Commands) && db.Commands == old(db.Commands)
+//@ pure func loaded(db *Database) bool = dbInv(db) && db.uIndex != nil && db.uIndex.N == len(db.Commands)
+//@ also func (*CachedDatabase).SearchWithOptionsAndCache
+//@   requires cdbWF(cdb) && loaded(cdb.Database)
+//@   modifies cdb.cacheManager.searchCache.cache.*, cdb.cacheManager.searchCache.cache.items[*], ghost(llen), ghost(lat), ghost(lpos), ghost(lof), heap(list.Element), heap(cache.Entry)
+//@   opt concurrent yes
+//@   ensures[C11.cached-search-keeps-db] cdbWF(cdb) && loaded(cdb.Database) && cdb.Database.uIndex == old(cdb.Database.uIndex)
+//@ func (*CachedDatabase).InvalidateCache
+//@   opt concurrent yes
+//@ func (*CachedDatabase).CleanupExpiredCache
+//@   opt concurrent yes
+//@ func (*CachedDatabase).GetCacheStats
+//@   requires cacheWF(cdb)
+//@   opt concurrent yes
+//@ also func (*MonitoredDatabase).SearchWithOptionsAndMonitoring
+//@   requires mdbWF(mdb) && loaded(mdb.CachedDatabase.Database)
+//@   modifies anything
+//@   opt concurrent yes
+//@ also func (*MonitoredDatabase).SearchWithMonitoring
+//@   requires mdbWF(mdb) && loaded(mdb.CachedDatabase.Database)
+//@   modifies anything
+//@   opt concurrent yes
